@@ -46,6 +46,9 @@ def body_nodes(func_node: ast.AST) -> Iterator[ast.AST]:
         yield from walk_local(func_node.body)
         return
     for st in func_node.body:
+        if isinstance(st, (ast.FunctionDef, ast.AsyncFunctionDef, ast.ClassDef)):
+            yield st  # nested definitions are separate analysis units
+            continue
         yield from walk_local(st)
 
 
